@@ -81,6 +81,7 @@ void harness(void)
   for (size_t i = 0; i < sl; i++) { in_setting[3 + i] = nondet_char(); __CPROVER_assume(a64i(in_setting[3 + i]) >= 0); }
   in_setting[3 + sl] = 0;
   const char *pw = in_phrase, *sp = in_setting + 3;
+  if (sl > 8) sl = 8;                       /* "the salt ... is at most 8 characters" */
   MD5_CTX c, c1; unsigned char fin[16];
   MD5_Init(&c1); MD5_Update(&c1, pw, in_plen); MD5_Update(&c1, sp, sl); MD5_Update(&c1, pw, in_plen); MD5_Final(fin, &c1);
   MD5_Init(&c); MD5_Update(&c, pw, in_plen); MD5_Update(&c, "$1$", 3); MD5_Update(&c, sp, sl);
